@@ -72,7 +72,11 @@ func concProgram(t jsonline.Template, g int, iters int) string {
 			}
 		case 5:
 			var out bytes.Buffer
-			in := fmt.Sprintf("{\"a\":%d}\n{\"a\":\"bad\"}\n{\"bin\":\"AQI=\",\"d\":%d,\"dd\":%d}\n{\"d\":\"%s\",\"pad\":\"%s\"}\n", g, 1632518460+i, 1632518460+g*86400,
+			bom := ""
+			if g%3 == 0 {
+				bom = "\xef\xbb\xbf" // a byte order mark in front of the first line of some goroutines' inputs
+			}
+			in := bom + fmt.Sprintf("{\"a\":%d}\n{\"a\":\"bad\"}\n{\"bin\":\"AQI=\",\"d\":%d,\"dd\":%d}\n{\"d\":\"%s\",\"pad\":\"%s\"}\n", g, 1632518460+i, 1632518460+g*86400,
 				time.Unix(1600000000+int64(g)*3600+int64(i), 0).UTC().Format(time.RFC3339), strings.Repeat(string(rune('a'+g%26)), 200+g))
 			imp := t.GetImporter(strings.NewReader(in))
 			exp := t.GetExporter(&out)
@@ -117,7 +121,7 @@ func genC20(cw *caseWriter, seed uint64, tier string) {
 		// importers that failed earlier in the process (reader error, over-long line), with the error fetched
 		// through GetRow after Import returned false and Import polled again: whatever they leave behind in
 		// the process must not couple later importers
-		for k := 0; k < 3; k++ {
+		for k := 0; k < 3 && round > 0; k++ { // not before the first round: its goroutines create the FIRST importers of the process
 			fi := t.GetImporter(&scriptReader{evs: []readEv{{kind: "d", data: []byte("{\"a\":1}\n{\"a\"")}, {kind: "e"}}})
 			for fi.Import() {
 				_, _ = fi.GetRow()
